@@ -136,12 +136,18 @@ func GenR(rng *Rng, prop string, tier string) *RScript {
 	nP := rng.Range(1, 3)
 	nColl := rng.Range(1, 3)
 	share := false
+	manyToOne := false
 	switch prop {
 	case "C03":
 		k.Yields = rng.Pct(80)
 		nColl = rng.Range(2, 3)
 		nP = rng.Range(1, 2)
 		share = true
+		// more source channels than downstream channels: several channel handlers write one downstream channel and share its clock
+		manyToOne = rng.Pct(35)
+		if manyToOne {
+			nP = rng.Range(2, 3)
+		}
 	case "C04", "C20":
 		k.BarrierYield = true
 		nP = rng.Range(1, 3)
@@ -158,10 +164,13 @@ func GenR(rng *Rng, prop string, tier string) *RScript {
 	if prop == "C16" {
 		nT = rng.Range(1, 4)
 	}
+	if manyToOne {
+		nT = rng.Range(1, nP-1)
+	}
 	for i := 0; i < nT; i++ {
 		s.TgtP = append(s.TgtP, fmt.Sprintf("%s_%d", tgtPrefix, i))
 	}
-	if rng.Pct(50) || prop == "C16" {
+	if rng.Pct(50) || prop == "C16" || manyToOne {
 		k.SrcNum, k.TgtNum = nP, nT
 	}
 	for _, p := range s.SrcP {
@@ -248,6 +257,13 @@ func GenR(rng *Rng, prop string, tier string) *RScript {
 			if nP > 1 && rng.Pct(30) {
 				idx = []int{1}
 			}
+			if manyToOne {
+				// one collection per source channel (its own handler), then at random
+				idx = []int{ci % nP}
+				if ci >= nP {
+					idx = []int{rng.Intn(nP)}
+				}
+			}
 		} else {
 			Shuffle(rng, idx)
 		}
@@ -255,7 +271,7 @@ func GenR(rng *Rng, prop string, tier string) *RScript {
 		sort.Ints(srcIdx)
 		var tgtIdx []int
 		crossedAfter := int64(0)
-		if free && nShard == 1 && len(alignedOn) >= 2 && rng.Pct(60) {
+		if free && !manyToOne && nShard == 1 && len(alignedOn) >= 2 && rng.Pct(60) {
 			// a "crossed" single-shard collection: it lives on a source pchannel whose handler already
 			// serves another downstream channel, so its packs take the forward path. To keep every
 			// handler's downstream channel unique (the only deterministic configuration, see DESIGN 7)
@@ -276,6 +292,11 @@ func GenR(rng *Rng, prop string, tier string) *RScript {
 			srcIdx = []int{si}
 			tgtIdx = []int{perm[Pick(rng, others)]}
 			crossedAfter = alignedOn[si]
+		} else if manyToOne {
+			tgtIdx = make([]int, len(srcIdx))
+			for i, si := range srcIdx {
+				tgtIdx[i] = si % nT
+			}
 		} else if prop == "C16" {
 			// unequal channel counts: the downstream places the collection's shards on its own channels
 			if nShard > nT {
@@ -348,6 +369,10 @@ func GenR(rng *Rng, prop string, tier string) *RScript {
 				continue
 			}
 			s.Ops = append(s.Ops, &ROp{Kind: "addpart", Coll: c.ID, Part: p.ID, AfterRound: -1})
+			if (prop == "C04" || prop == "C20") && rng.Pct(25) {
+				// announced twice (listed at the start and seen by the watch): both announcements may be in progress at once
+				s.Ops = append(s.Ops, &ROp{Kind: "addpart", Coll: c.ID, Part: p.ID, AfterRound: -1})
+			}
 		}
 	}
 	_ = usedSrc
@@ -440,6 +465,9 @@ func GenR(rng *Rng, prop string, tier string) *RScript {
 					app(physOf(v), &REntry{Ts: t, Kind: "createp", Coll: l.c.ID, Part: p.ID, PartName: p.Name, Tag: newTag()})
 				}
 				s.Ops = append(s.Ops, &ROp{Kind: "addpart", Coll: l.c.ID, Part: p.ID, AfterRound: r})
+				if (prop == "C04" || prop == "C20") && rng.Pct(20) {
+					s.Ops = append(s.Ops, &ROp{Kind: "addpart", Coll: l.c.ID, Part: p.ID, AfterRound: r})
+				}
 			}
 		}
 		// drops
